@@ -62,6 +62,7 @@ class MindsDBParser(Parser):
         ('left', JSON_GET),
         ('left', PLUS, MINUS),
         ('left', STAR, DIVIDE, TYPECAST, MODULO),
+        ('left', CONCAT),  # binds tighter than arithmetic and comparison (SQLite, MySQL with PIPES_AS_CONCAT)
         ('right', UMINUS),  # Unary minus operator, unary not
 
     )
